@@ -55,7 +55,7 @@ Record env : Type := mkEnv {
   e_cls : list (name * cinfo);
   e_mcs : list (name * rng);
   e_defs : list (name * rng);
-  e_dtbl : list (name * list (name * rng));     (* the flattened field table of every def (same order as e_defs) *)
+  e_dtbl : list (name * cinfo);     (* the flattened field table of every def, with types (same order as e_defs) *)
   e_dsets : list (name * rng) }.
 
 Definition env0 : env := mkEnv [mkFrame [] [] []] [mkTF [] [] []] [] [] [] [] [].
@@ -94,12 +94,16 @@ Definition fields_of (e : env) (t : sty) : option (list (name * rng)) :=
   match t with
   | TUnk => None
   | TCls k => option_map (fun p => ci_fields (snd p)) (nth_decl (e_cls e) k)
-  | TDef k => option_map snd (nth_decl (e_dtbl e) k)
+  | TDef k => option_map (fun p => ci_fields (snd p)) (nth_decl (e_dtbl e) k)
   | TList _ => None
   end.
 (** ... and the types of those fields (known for classes) *)
 Definition ftys_of (e : env) (t : sty) : option (list (name * sty)) :=
-  match t with TCls k => option_map (fun p => ci_ftys (snd p)) (nth_decl (e_cls e) k) | _ => None end.
+  match t with
+  | TCls k => option_map (fun p => ci_ftys (snd p)) (nth_decl (e_cls e) k)
+  | TDef k => option_map (fun p => ci_ftys (snd p)) (nth_decl (e_dtbl e) k)
+  | _ => None
+  end.
 Definition elem_sty (t : sty) : sty := match t with TList t' => t' | _ => TUnk end.
 (** what is known about the type a suffix yields: a field has the type it was declared with, a single subscript
     yields an element of the list *)
@@ -191,8 +195,10 @@ Definition sty_simple (e : env) (sv : simple) : sty :=
   | SClassVal i _ _ => class_ty e (i_name i)
   | _ => TUnk
   end.
+Definition sty_sufs (e : env) (t : sty) (sufs : list suffix) : sty := fold_left (suf_sty e) sufs t.
+(** a value that is one simple value with suffixes (anything else: nothing known) *)
 Definition sty_value (e : env) (v : value) : sty :=
-  match v with Val _ [Inner sv []] => sty_simple e sv | _ => TUnk end.
+  match v with Val _ [Inner sv sufs] => sty_sufs e (sty_simple e sv) sufs | _ => TUnk end.
 (** the suffixes of a value: `.f` on a value of a known record type denotes the field f of its (flattened) table;
     the type of what the suffix yields is [suf_sty] *)
 Fixpoint spec_sufs (f : N) (e : env) (t : sty) (sufs : list suffix) : list ev :=
@@ -316,11 +322,11 @@ Definition set_cls (e : env) (n : name) (ci : cinfo) : env :=
 Definition set_mc (e : env) (n : name) (r : rng) : env :=
   mkEnv (e_frames e) (e_tfr e) (e_cls e) ((n, r) :: e_mcs e) (e_defs e) (e_dtbl e) (e_dsets e).
 Definition set_def (e : env) (n : name) (r : rng) : env :=
-  mkEnv (e_frames e) (e_tfr e) (e_cls e) (e_mcs e) ((n, r) :: e_defs e) ((n, []) :: e_dtbl e) (e_dsets e).
+  mkEnv (e_frames e) (e_tfr e) (e_cls e) (e_mcs e) ((n, r) :: e_defs e) ((n, mkCi r [] []) :: e_dtbl e) (e_dsets e).
 (** the field table of the newest def, once its body has been read *)
-Definition set_dtbl (e : env) (tb : list (name * rng)) : env :=
+Definition set_dtbl (e : env) (tb : list (name * rng)) (ft : list (name * sty)) : env :=
   mkEnv (e_frames e) (e_tfr e) (e_cls e) (e_mcs e) (e_defs e)
-        (match e_dtbl e with (n, _) :: t => (n, tb) :: t | [] => [] end) (e_dsets e).
+        (match e_dtbl e with (n, ci) :: t => (n, mkCi (ci_rng ci) tb ft) :: t | [] => [] end) (e_dsets e).
 Definition set_dset (e : env) (n : name) (r : rng) : env :=
   mkEnv (e_frames e) (e_tfr e) (e_cls e) (e_mcs e) (e_defs e) (e_dtbl e) ((n, r) :: e_dsets e).
 (** leaving a block: the globals declared inside stay, the frames are those of the outside *)
@@ -350,7 +356,7 @@ Fixpoint spec_stmt (f : N) (e : env) (x : stmt) {struct x} : list ev * env :=
     let e1 := push_vars e0 [] in
     let '(ev2, e3) := spec_parents f e1 ps in
     let '(ev3, e4) := spec_items f e3 b in
-    (ev2 ++ ev3, match name_ident nm with Some _ => set_dtbl e0 (top_fields e4) | None => e0 end)
+    (ev2 ++ ev3, match name_ident nm with Some _ => set_dtbl e0 (top_fields e4) (top_tfields e4) | None => e0 end)
   | SDefm _ _ ps => (mcrefs (push_vars e []) ps, e)
   | SDefset t i b =>
     let e0 := set_dset e (i_name i) (at_file f (i_rng i)) in
